@@ -27,6 +27,7 @@ import (
 //	k=pval   in {t}          out ParseValue(t)
 //	k=oracle in {s}          out d2oracle.Set of a shape label and a connection label, read back from the recompiled graph
 //	k=unitab in {}           out the runes on which the model's Unicode tables rest
+//	k=fixflags in {part}     no observation: the driver evaluates the hypothesis of the full theorem on the regenerated tables
 func main() { hl.Main("C05", run) }
 
 func cps(s string) []int {
@@ -407,6 +408,8 @@ func run(c *hl.Ctx) error {
 			c.Emit(oracleCase(fromCps(in["s"])))
 		case "unitab":
 			c.Emit(unitabCase())
+		case "fixflags":
+			c.Emit(map[string]any{"k": "fixflags", "in": in, "out": map[string]any{}, "triv": true})
 		default:
 			return fmt.Errorf("unknown replay kind %v", cs["k"])
 		}
@@ -415,6 +418,9 @@ func run(c *hl.Ctx) error {
 	r := c.Rand()
 	g := quotegen.New(r, c.Count)
 	c.Emit(unitabCase())
+	// the hypotheses of the full theorems are evaluated by the driver on the regenerated tables
+	c.Emit(map[string]any{"k": "fixflags", "in": map[string]any{"part": "key"}, "out": map[string]any{}, "triv": true})
+	c.Emit(map[string]any{"k": "fixflags", "in": map[string]any{"part": "value"}, "out": map[string]any{}, "triv": true})
 
 	// corpus: the witnesses of DESIGN §7 and the corner cases found while modelling; always first
 	for _, s := range quotegen.Corpus {
